@@ -305,14 +305,44 @@ class NP:
         out.prefix_ghost = ghosts[-1]
         return out
 
+    def _truth(self, a, idx):
+        v = a.at(*idx)
+        if isinstance(v, SBool):
+            return v
+        if isinstance(v, Cx):
+            return (v.re != 0) | (v.im != 0)
+        return num(v) != 0
+
+    def _quantified(self, a, which):
+        """np.any / np.all of an array: a fresh truth value; the existential side is given by a witness cell
+        (any true => a[w] is truthy; all false => a[w] is falsy), the universal side is recorded in
+        run.quantified for contracts that instantiate it at a cell they name.  Over-approximation."""
+        run = engine()
+        if any(ax.masked for ax in a.axes):
+            raise Undecided("np.%s over a masked array" % which)
+        b = sym.fresh_bool(which)
+        w = [sym.fresh_int("w_%s%d" % (which, k)) for k in range(a.ndim)]
+        inr = sym.And(*[(x >= 0) & (x < ax.size) for x, ax in zip(w, a.axes)]) if w else SBool(True)
+        t = self._truth(a, w)
+        if which == "any":
+            run.assume(b.implies(inr & t))
+        else:
+            run.assume(sym.Not(b).implies(inr & sym.Not(t)))
+        run.__dict__.setdefault("quantified", []).append((which, a, b))
+        return b
+
     def all(self, a, axis=None):
         if isinstance(a, Arr):
-            raise Undecided("np.all over an array")
+            if axis is not None:
+                raise Undecided("np.all with an axis")
+            return self._quantified(a, "all")
         return sbool(a)
 
     def any(self, a, axis=None):
         if isinstance(a, Arr):
-            raise Undecided("np.any over an array")
+            if axis is not None:
+                raise Undecided("np.any with an axis")
+            return self._quantified(a, "any")
         return sbool(a)
 
     def isscalar(self, a):
@@ -329,6 +359,33 @@ class NP:
             a = a if isinstance(a, Arr) else arrays.full([], a, arrays._scalar_dtype(a))
             return a._ew(b, lambda p, q: sym.smax(p, q))
         return sym.smax(a, b)
+
+    def _extremum(self, a, which):
+        """np.max / np.min of a 1-D array (or scalar): a fresh value attained at a fresh witness index (recorded
+        in run.extrema for contracts that want to instantiate the bound `a[k] <= m` at an index they name).
+        Fewer facts than NumPy guarantees: an over-approximation (sound for proofs)."""
+        run = engine()
+        if not isinstance(a, Arr):
+            if isinstance(a, (values.SList, list, tuple)):
+                a = self.asarray(a)
+            else:
+                return num(a)
+        if a.ndim != 1 or a.axes[0].masked:
+            raise Undecided("np.%s of an n-d or masked array" % which)
+        n = a.axes[0].size
+        w = sym.fresh_int("arg%s" % which)
+        run.assume((w >= 0) & (w < n))
+        m = a.at(w)
+        run.__dict__.setdefault("extrema", []).append((which, a, w, m))
+        return m
+
+    def max(self, a, axis=None):
+        return self._extremum(a, "max")
+
+    def min(self, a, axis=None):
+        return self._extremum(a, "min")
+
+    amax, amin = max, min
 
     def clip(self, a, lo, hi):
         return self.minimum(self.maximum(a, lo), hi)
